@@ -742,4 +742,168 @@ Section PSC.
       + destruct (1 <? s0)%Z; [|destruct Hin]. destruct Hin as [Heq|[]]. injection Heq as <- <-. lia.
     - intros [= <-]. exact Haw.
   Qed.
+
+  Lemma keys_some_of_akeys a b : akeys a = akeys b -> keys_some a = keys_some b.
+  Proof.
+    unfold akeys, keys_some. revert b. induction a as [|[k p] a IH]; intros [|[k' p'] b]; simpl; try discriminate; [reflexivity|].
+    intros [= -> H]. rewrite (IH b H). reflexivity.
+  Qed.
+
+  Lemma keys_some_nodup a : NoDup (akeys a) -> NoDup (keys_some a).
+  Proof.
+    induction a as [|[k p] a IH]; intros H; [constructor|]. unfold akeys in H. simpl in H. inversion H as [|? ? Hk Hn]; subst.
+    destruct k as [c|].
+    - change (keys_some ((Some c, p) :: a)) with (c :: keys_some a). constructor; [|apply IH, Hn].
+      intros Hin. apply Hk. apply keys_some_akeys in Hin. exact Hin.
+    - change (keys_some ((None, p) :: a)) with (keys_some a). apply IH, Hn.
+  Qed.
+
+  Lemma cnt_le_length l : (cnt l <= length l)%nat.
+  Proof. unfold cnt. induction l as [|x l IH]; simpl; [lia|]. destruct (cmem x SS); simpl; lia. Qed.
+
+  Lemma cnt_pos_ex l : (0 < cnt l)%nat -> exists e, In e l /\ In e SS.
+  Proof.
+    unfold cnt. destruct (filter (fun c => cmem c SS) l) as [|e t] eqn:E; simpl; [lia|]. intros _.
+    assert (H : In e (filter (fun c => cmem c SS) l)) by (rewrite E; left; reflexivity).
+    apply filter_In in H. exists e. split; [tauto|apply cmem_In; tauto].
+  Qed.
+
+  Lemma ex_cnt_pos l e : In e l -> In e SS -> (0 < cnt l)%nat.
+  Proof.
+    intros H1 H2. unfold cnt. assert (H : In e (filter (fun c => cmem c SS) l)) by (apply filter_In; split; [exact H1|apply cmem_In, H2]).
+    destruct (filter (fun c => cmem c SS) l); [destruct H|simpl; lia].
+  Qed.
+
+  (* ================================================================ the invariant of the count loop *)
+  Section RUNPSC.
+    Variable cf : cfg.
+    Hypothesis Hae : c_accept_equal cf = true.
+    Hypothesis Hstep : c_step cf = (-1)%Z.
+    Variable qf : Q -> Z -> Q.
+    Hypothesis Hqf : c_quota cf = Some qf.
+    Variable n : Z.
+    Variable total : Q.
+    Hypothesis Htot : Qeq_bool total 0 = false.
+    Hypothesis Hn0 : (n =? 0)%Z = false.
+    Let q := qf total n.
+    Hypothesis Hq : 0 < q.
+    Variable caps : list (C * Z).
+    Variable k : nat.
+
+    Record Inv (a : alloc) (seats : list (C * Z)) : Prop := {
+      i_nd : NoDup (akeys a);
+      i_nn : alloc_nonneg a;
+      i_caps : forall c, In c (keys_some a) -> dget caps c = Some 1%Z;
+      i_disj : forall c, In c (keys_some a) -> ~ In c (map fst seats);
+      i_sn : forall c, (0 <= dget_or seats c 0)%Z;
+      i_cons : asum a + inject_Z (zsum (map snd seats)) * q <= total;
+      i_B : BB (keys_some a) a;
+      i_C : (exists c, In c SS /\ In c (keys_some a)) ->
+            inject_Z (Z.of_nat k) * q <= cwa a + inject_Z (Z.of_nat (cnt (map fst seats))) * q;
+      i_I2 : (Nat.min k (length SS) <= cnt (map fst seats) + cnt (keys_some a))%nat
+    }.
+
+    Lemma quota_is : quota_of cf total n = Some q.
+    Proof. unfold quota_of. rewrite Hqf, Htot, Hn0. reflexivity. Qed.
+
+    (* a count that elects: the elected (one seat each) are removed, their surplus transferred *)
+    Lemma step_elect a seats el0 a1 : Inv a seats ->
+      (forall c s, In (c, s) el0 -> s = 1%Z /\ exists p, alloc_get a (Some c) = Some p /\ inject_Z s * q <= wsum p) ->
+      NoDup (map fst el0) ->
+      subtract a (map (fun cs : C * Z => (fst cs, inject_Z (snd cs) * q)) el0) = Some a1 ->
+      asum (transfer a1 (map fst el0)) + inject_Z (seats_sum el0) * q == asum a ->
+      Inv (transfer a1 (map fst el0)) (add_seats seats el0).
+    Proof.
+      intros I Hel Hnd Hsub Hcons. destruct I as [I1 I2 I3 I4 I5 I6 I7 I8 I9].
+      set (amts := map (fun cs : C * Z => (fst cs, inject_Z (snd cs) * q)) el0) in *.
+      assert (Hamt : forall c amt, In (c, amt) amts -> exists s, In (c, s) el0 /\ amt = inject_Z s * q).
+      { intros c amt Hin. unfold amts in Hin. apply in_map_iff in Hin. destruct Hin as ([c0 s0] & Heq & Hin).
+        injection Heq as <- <-. exists s0. split; [exact Hin|reflexivity]. }
+      assert (Hpos : forall c amt, In (c, amt) amts -> 0 <= amt).
+      { intros c amt Hin. destruct (Hamt c amt Hin) as (s & Hs & ->). destruct (Hel c s Hs) as [-> _].
+        change (inject_Z 1) with 1. lra. }
+      assert (Hndk : NoDup (map fst amts)) by (unfold amts; rewrite map_map; exact Hnd).
+      assert (Hle : forall c amt p, In (c, amt) amts -> alloc_get a (Some c) = Some p -> amt <= wsum p).
+      { intros c amt p Hin Hg. destruct (Hamt c amt Hin) as (s & Hs & ->). destruct (Hel c s Hs) as (_ & p0 & Hg0 & Hw).
+        rewrite Hg in Hg0. injection Hg0 as <-. exact Hw. }
+      destruct (subtract_psc (keys_some a) amts a a1 I1 I2 Hpos Hndk Hle I7 Hsub) as [S1 S2].
+      destruct (subtract_conserves amts a a1 I1 Hpos Hndk Hle Hsub) as [_ S3].
+      pose proof (subtract_nonneg amts a a1 I2 Hpos Hsub) as S4.
+      pose proof (keys_some_of_akeys a1 a S3) as S5.
+      assert (S6 : NoDup (akeys a1)) by (rewrite S3; exact I1).
+      assert (HsumS : sumS amts == inject_Z (Z.of_nat (cnt (map fst el0))) * q).
+      { apply sumS_amounts. intros c s Hin. apply (Hel c s Hin). }
+      set (E := map fst el0) in *.
+      assert (HE : incl E (keys_some a)).
+      { intros c Hc. unfold E in Hc. apply in_map_iff in Hc. destruct Hc as ([c0 s0] & <- & Hin).
+        destruct (Hel c0 s0 Hin) as (_ & p & Hg & _). apply keys_some_akeys. unfold akeys. apply in_map_iff.
+        exists (Some c0, p). split; [reflexivity|apply alloc_get_in, Hg]. }
+      assert (S7 : BB (keys_some a1) a1) by (rewrite S5; exact S2).
+      destruct (transfer_psc a1 E S6 S4 S7) as (R1 & R2 & R3 & R4 & R5).
+      rewrite S5 in R3, R4, R5. set (cont := filter (fun c => negb (cmem c E)) (keys_some a)) in *.
+      set (a' := transfer a1 E) in *.
+      assert (Hcont : incl cont (keys_some a)) by (intros x Hx; apply filter_In in Hx; tauto).
+      assert (Hkeys : map fst (add_seats seats el0) = map fst seats ++ E).
+      { apply add_seats_keys; [exact Hnd|]. intros c Hc. apply I4, HE, Hc. }
+      constructor.
+      - exact R1.
+      - exact R2.
+      - intros c Hc. rewrite R4 in Hc. apply I3, Hcont, Hc.
+      - intros c Hc. rewrite R4 in Hc. rewrite Hkeys. intros Hin. apply in_app_or in Hin. destruct Hin as [Hin|Hin].
+        + exact (I4 c (Hcont c Hc) Hin).
+        + apply filter_In in Hc. destruct Hc as [_ Hc]. apply negb_true_iff, cmem_nIn in Hc. exact (Hc Hin).
+      - apply add_seats_nonneg; [exact I5|]. intros c s Hin. destruct (Hel c s Hin) as [-> _]. lia.
+      - rewrite add_seats_sum, inject_Z_plus. lra.
+      - rewrite R4. exact R3.
+      - rewrite R4. intros (c & Hc1 & Hc2). rewrite Hkeys, cnt_app, Nat2Z.inj_add, inject_Z_plus.
+        assert (Hex : exists c, In c SS /\ In c (keys_some a)) by (exists c; split; [exact Hc1|apply Hcont, Hc2]).
+        specialize (I8 Hex). assert (Hex' : exists d', In d' SS /\ In d' cont) by (exists c; tauto).
+        specialize (R5 Hex'). lra.
+      - rewrite R4, Hkeys, cnt_app.
+        pose proof (cnt_split (keys_some a) E (keys_some_nodup a I1) Hnd HE) as Hs. fold cont in Hs. lia.
+    Qed.
+
+    (* a count that eliminates (at most one candidate, nobody holding a quota) *)
+    Lemma step_elim a seats elim : Inv a seats ->
+      (forall c p, In (Some c, p) a -> wsum p < q) ->
+      incl elim (keys_some a) -> NoDup elim -> (length elim <= 1)%nat ->
+      Inv (transfer a elim) seats.
+    Proof.
+      intros I Hlt HE Hnd Hlen. destruct I as [I1 I2 I3 I4 I5 I6 I7 I8 I9].
+      destruct (transfer_psc a elim I1 I2 I7) as (R1 & R2 & R3 & R4 & R5).
+      destruct (transfer_conserves a elim I1) as [T1 _].
+      set (cont := filter (fun c => negb (cmem c elim)) (keys_some a)) in *.
+      assert (Hcont : incl cont (keys_some a)) by (intros x Hx; apply filter_In in Hx; tauto).
+      pose proof (cnt_split (keys_some a) elim (keys_some_nodup a I1) Hnd HE) as Hs. fold cont in Hs.
+      constructor.
+      - exact R1.
+      - exact R2.
+      - intros c Hc. rewrite R4 in Hc. apply I3, Hcont, Hc.
+      - intros c Hc. rewrite R4 in Hc. apply I4, Hcont, Hc.
+      - exact I5.
+      - rewrite T1. exact I6.
+      - rewrite R4. exact R3.
+      - rewrite R4. intros (c & Hc1 & Hc2).
+        assert (Hex : exists c, In c SS /\ In c (keys_some a)) by (exists c; split; [exact Hc1|apply Hcont, Hc2]).
+        specialize (I8 Hex). assert (Hex' : exists d', In d' SS /\ In d' cont) by (exists c; tauto).
+        specialize (R5 Hex'). lra.
+      - rewrite R4. pose proof (cnt_le_length elim) as Hc.
+        destruct (Nat.eq_dec (cnt elim) 0) as [H0|H0]; [lia|].
+        (* a member of SS is eliminated: the coalition holds less than one quota per continuing member *)
+        assert (Hpos : (0 < cnt elim)%nat) by lia.
+        destruct (cnt_pos_ex elim Hpos) as (e & He1 & He2).
+        assert (Hm : (0 < cnt (keys_some a))%nat) by (apply (ex_cnt_pos _ e); [apply HE, He1|exact He2]).
+        assert (Hex : exists c, In c SS /\ In c (keys_some a)) by (exists e; split; [exact He2|apply HE, He1]).
+        specialize (I8 Hex).
+        destruct (cwa_lt_quota a q I2 Hq Hlt) as [_ Hc2]. specialize (Hc2 Hm).
+        assert (Hk : (k < cnt (keys_some a) + cnt (map fst seats))%nat).
+        { destruct (le_lt_dec (cnt (keys_some a) + cnt (map fst seats)) k) as [Hge|Hl]; [exfalso|exact Hl].
+          assert (Hz : (Z.of_nat (cnt (keys_some a)) + Z.of_nat (cnt (map fst seats)) <= Z.of_nat k)%Z) by lia.
+          rewrite Zle_Qle, inject_Z_plus in Hz.
+          assert (Hmul : (inject_Z (Z.of_nat (cnt (keys_some a))) + inject_Z (Z.of_nat (cnt (map fst seats)))) * q
+                         <= inject_Z (Z.of_nat k) * q) by (apply Qmult_le_compat_r; [exact Hz|lra]).
+          lra. }
+        lia.
+    Qed.
+  End RUNPSC.
 End PSC.
